@@ -37,9 +37,9 @@ func runC20(c *Ctx) {
 	}
 	// roles: finder = func(string) int called by filterHTML; matcher = func(string,string,int) bool called by the finder
 	var finder, matcher, inject *ssa.Function
-	eachInstr(fh, func(_ *ssa.BasicBlock, in ssa.Instruction) {
+	eachInstrG(c.P, fh, func(_ *ssa.BasicBlock, in ssa.Instruction) {
 		if ci, ok := in.(ssa.CallInstruction); ok {
-			if cal := ci.Common().StaticCallee(); cal != nil && c.P.IsLibFunc(cal) {
+			if cal := ci.Common().StaticCallee(); cal != nil && c.P.IsLibFunc(cal) && !c.P.IsNewHelper(cal) {
 				sig := cal.Signature
 				if sig.Recv() == nil && sig.Params().Len() == 1 && typeStr(sig.Params().At(0).Type()) == "string" && sig.Results().Len() == 1 && typeStr(sig.Results().At(0).Type()) == "int" {
 					finder = cal
@@ -54,9 +54,9 @@ func runC20(c *Ctx) {
 		c.Fail("C20.R1", "anchor:finder/tag builder", fh.Pos(), fmt.Sprintf("unresolved anchor by role (finder=%v tag builder=%v)", finder != nil, inject != nil))
 		return
 	}
-	eachInstr(finder, func(_ *ssa.BasicBlock, in ssa.Instruction) {
+	eachInstrG(c.P, finder, func(_ *ssa.BasicBlock, in ssa.Instruction) {
 		if ci, ok := in.(ssa.CallInstruction); ok {
-			if cal := ci.Common().StaticCallee(); cal != nil && c.P.IsLibFunc(cal) && cal.Signature.Params().Len() == 3 {
+			if cal := ci.Common().StaticCallee(); cal != nil && c.P.IsLibFunc(cal) && !c.P.IsNewHelper(cal) && cal.Signature.Params().Len() == 3 {
 				matcher = cal
 			}
 		}
